@@ -52,11 +52,11 @@ func (c *Ctx) footprintOf(ev *DecEval) *footprint {
 	}
 	for _, e := range ev.Elems {
 		a, _ := arrayLabel(e.Array)
-		if e.Idx != nil && e.Idx.HasBase && e.Idx.Base == ev.AddrSym {
-			if old, ok := fp.affine[a]; ok && old != e.Idx.Off {
+		if off, ok := addrOffset(e.Idx, ev.AddrSym, ev.Lo, ev.Hi); ok {
+			if old, ok := fp.affine[a]; ok && old != off {
 				fp.nonAffine[a] = true
 			}
-			fp.affine[a] = e.Idx.Off
+			fp.affine[a] = off
 		} else {
 			fp.nonAffine[a] = true
 		}
